@@ -1,6 +1,6 @@
 (** Single entry point of the extracted model: name of the case kind -> function. *)
 From Coq Require Import List NArith ZArith String.
-From Tongo Require Import Lib.Bits Lib.Sx Harness.H06.
+From Tongo Require Import Lib.Bits Lib.Sx Harness.H06 Harness.H07.
 Import ListNotations.
 Local Open Scope string_scope.
 
@@ -10,4 +10,5 @@ Definition run (name : string) (a : sx) : sx :=
   else if is "c06.fromfift" then H06.run_from_fift a
   else if is "c06.tofift" then H06.run_to_fift a
   else if is "c06.minbits" then H06.run_minbits a
+  else if is "c07.parse" then H07.run_parse a
   else sx_err "unknown case kind".
